@@ -8,25 +8,18 @@ package xprotocol
 //   - xproto-pingpong (connpool_pingpong.go): BFS + schedule part, through the C09 driver
 //     c09PingPong (zz_verif_C09_pools_test.go, compiled into these units with "also": ["C09"]):
 //     the real bolt codec registered as ping-pong protocol "vboltpp".
-//   - xproto-binding (connpool_binding.go): BFS, driver c10Binding below.
+//   - xproto-binding (connpool_binding.go): BFS, driver c09Binding (zz_verif_C09_binding_test.go,
+//     compiled in the same way): the real bolt codec as protocol "vboltbind" with PoolMode() TCP;
+//     extra event dclose (the downstream connection closes). Pool Close and Shutdown are not
+//     applied here: they self-deadlock on the unchanged tree (C09 finding F8, findings/C09.md).
 //
 // Search, reference model and oracle A1-A4 are in mosn.io/mosn/pkg/verifrt/c09/accounting.go.
 
 import (
-	"context"
-	"fmt"
 	"os"
-	"sort"
-	"sync"
-	"sync/atomic"
 	"testing"
 
-	"mosn.io/api"
-	xproto "mosn.io/mosn/pkg/protocol/xprotocol"
-	"mosn.io/mosn/pkg/types"
 	"mosn.io/mosn/pkg/verifrt/c09"
-	"mosn.io/mosn/pkg/verifrt/vfake"
-	"mosn.io/pkg/variable"
 )
 
 func TestVerifC10PoolPingPong(t *testing.T) {
@@ -36,132 +29,6 @@ func TestVerifC10PoolPingPong(t *testing.T) {
 // Built with the "proxy" rewrite set (pkg/stream, pkg/stream/xprotocol, pkg/upstream/cluster instrumented).
 func TestVerifC10PoolPingPongSchedules(t *testing.T) {
 	c09.MainAccountingSchedules(t, c09PingPong{}, c09.AccSpec{ConnPerStream: true}, c09.AccScenarios(), 2, 3, 2)
-}
-
-// ---------------------------------------------------------------------------
-// binding pool (connpool_binding.go)
-//
-// Selected by a codec whose PoolMode() is neither Multiplex nor PingPong: "vboltbind" = the real
-// bolt api.XProtocol with PoolMode() api.TCP and heartbeats off. The pool binds one upstream
-// client to each DOWNSTREAM connection (types.VariableConnectionID / VariableConnection of the
-// request context) and multiplexes that connection's requests over it; when either side closes,
-// the pool closes the other. The driver keeps ONE downstream connection (a vfake server-side
-// connection) per world and replaces it by a fresh one once it was closed (a closed downstream
-// connection sends no more requests; the next request comes from a new client connection). Every
-// client the pool hands out is bound to the current downstream connection (addDownConnListenerOnce
-// runs in every NewStream) and closing it closes all of them, so the canonical state (open
-// connections, slots) still determines the futures.
-//
-// Extra event dclose: the downstream connection closes (the statement's "downstream disconnect").
-//
-// Not applied: pool Close and Shutdown. Both hold poolBinding.clientMux while they call into
-// code that locks it again (Close: connpool_binding.go:130-137 -> synchronous close event ->
-// activeClientBinding.OnEvent -> removeFromPool :243-250; Shutdown :139-150 -> OnGoAway :350-351
-// -> removeFromPool): with one client in the pool the caller waits for itself. That is a
-// defect of the C09 kind (the same one was repaired in the ping-pong and HTTP/1 pools by commit
-// 76f1d5986), not a statement about counters: the events are left out of this pool's alphabet
-// and the defect is mentioned in findings/C10-pools.md.
-
-const c10BindName api.ProtocolName = "vboltbind"
-
-type c10BindProto struct{ api.XProtocol }
-
-func (p c10BindProto) Name() api.ProtocolName { return c10BindName }
-func (p c10BindProto) PoolMode() api.PoolMode { return api.TCP }
-func (p c10BindProto) EnableWorkerPool() bool { return true }
-func (p c10BindProto) Trigger(ctx context.Context, requestId uint64) api.XFrame {
-	return nil // heartbeats disabled: the pool creates no keep-alive for this codec
-}
-
-type c10BindCodec struct{}
-
-func (c *c10BindCodec) ProtocolName() api.ProtocolName { return c10BindName }
-func (c *c10BindCodec) NewXProtocol(ctx context.Context) api.XProtocol {
-	return c10BindProto{c09bolt.NewXProtocol(ctx)}
-}
-func (c *c10BindCodec) ProtocolMatch() api.ProtocolMatch { return c09bolt.ProtocolMatch() }
-func (c *c10BindCodec) HTTPMapping() api.HTTPMapping     { return c09bolt.HTTPMapping() }
-
-var c10Once sync.Once
-var c10bind = &c10BindCodec{}
-
-type c10Binding struct {
-	c09Common
-	down *vfake.Conn
-}
-
-func (*c10Binding) Name() string   { return "xproto-binding" }
-func (*c10Binding) Kind() c09.Kind { return c09.Multiplex }
-func (*c10Binding) Guarded() bool  { return true }
-
-func (d *c10Binding) NewPool(ctx context.Context, host types.Host) types.ConnectionPool {
-	c09Init()
-	c10Once.Do(func() {
-		if err := xproto.RegisterXProtocolCodec(c10bind); err != nil {
-			panic(err)
-		}
-	})
-	d.down = nil
-	p := NewConnPool(ctx, c10bind, host)
-	if _, ok := p.(*poolBinding); !ok {
-		panic(fmt.Sprintf("vboltbind did not select the binding pool: %T", p))
-	}
-	return p
-}
-
-func (d *c10Binding) NewCtx() context.Context {
-	if d.down == nil || d.down.IsClosed() {
-		d.down = vfake.NewServerSide("down")
-	}
-	ctx := d.c09Common.NewCtx()
-	if err := variable.Set(ctx, types.VariableConnectionID, d.down.ID()); err != nil {
-		panic(err)
-	}
-	if err := variable.Set(ctx, types.VariableConnection, api.Connection(d.down)); err != nil {
-		panic(err)
-	}
-	return ctx
-}
-
-func (*c10Binding) Prepare(pool types.ConnectionPool, ctx context.Context) (bool, error) {
-	return pool.CheckAndInit(ctx), nil
-}
-func (*c10Binding) Quiesce(pool types.ConnectionPool, shutdownRequested bool) error { return nil }
-func (*c10Binding) PredictDeadlock(pool types.ConnectionPool, ev string, conn *vfake.Conn) (string, string) {
-	return "", ""
-}
-
-func (*c10Binding) Books(pool types.ConnectionPool) c09.Books {
-	p := pool.(*poolBinding)
-	p.clientMux.Lock()
-	defer p.clientMux.Unlock()
-	ids := make([]uint64, 0, len(p.idleClients))
-	for id := range p.idleClients {
-		ids = append(ids, id)
-	}
-	sort.Slice(ids, func(i, j int) bool { return ids[i] < ids[j] })
-	b := c09.Books{}
-	for _, id := range ids {
-		ac := p.idleClients[id]
-		st := "Connected"
-		if atomic.LoadUint32(&ac.goaway) == GoAway {
-			st = "GoAway"
-		}
-		b.Slots = append(b.Slots, c09.SlotBook{Present: true, State: st, Conn: c09Fake(ac.host.Connection)})
-	}
-	return b
-}
-
-func (d *c10Binding) ExtraEnabled(pool types.ConnectionPool) []string {
-	if d.down != nil && !d.down.IsClosed() {
-		return []string{"dclose"}
-	}
-	return nil
-}
-
-func (d *c10Binding) ApplyExtra(pool types.ConnectionPool, ev string) string {
-	d.down.Close(api.NoFlush, api.RemoteClose)
-	return "closed"
 }
 
 func TestVerifC10PoolBinding(t *testing.T) {
@@ -180,5 +47,5 @@ func TestVerifC10PoolBinding(t *testing.T) {
 			spec.SkipEvents = nil
 		}
 	}
-	c09.MainAccounting(t, &c10Binding{}, spec, 7, 11)
+	c09.MainAccounting(t, &c09Binding{}, spec, 7, 11)
 }
